@@ -21,6 +21,7 @@ func runC19(c *Check) {
 	c.settingsWrites()
 	c.settingsLock()
 	c.settingsMisc()
+	c.boolShortening()
 }
 
 // ---- R1
